@@ -286,15 +286,20 @@ def prop_adaptive(case, r):
     step_params = {'maxiter': case['maxiter']}
     sweeper_params = {'num_nodes': case['num_nodes'], 'quad_type': 'RADAU-RIGHT', 'QI': 'IE'}
     sweeper = generic_implicit
+    avoid = bool(case.get('avoid_restarts')) and flavor == 'embedded'
     if flavor == 'embedded':
-        cc[Adaptivity] = apar
+        cc[Adaptivity] = dict(apar, avoid_restarts=True) if avoid else apar
         order = case['maxiter']
     elif flavor == 'rk':
         sweeper = getattr(RKmod, case['rk'])
         sweeper_params = {}
         step_params = {'maxiter': 1}
-        cc[AdaptivityRK] = apar
         order = sweeper.get_update_order()
+        if case.get('update_order_shift'):
+            # the user may configure the order the controller assumes (parameter update_order): the formula must use the configured value
+            order = max(1, order + case['update_order_shift'])
+            apar = dict(apar, update_order=order)
+        cc[AdaptivityRK] = apar
     elif flavor == 'polynomial':
         level_params['restol'] = 1e-11
         step_params = {'maxiter': 60}
@@ -332,6 +337,10 @@ def prop_adaptive(case, r):
     r.label(flavor, case['problem'], f'procs{P}')
     if lim:
         r.label('limiter')
+    if avoid:
+        r.label('avoid-restarts')
+    if case.get('update_order_shift') and flavor == 'rk':
+        r.label('configured-update-order')
     tol = case['e_tol']
     accepted = rejected = 0
     est_key = 'e_extrap' if flavor == 'extrapolation' else 'e_est'
@@ -351,8 +360,8 @@ def prop_adaptive(case, r):
                 r.check(ok, 'accepted-above-tolerance', f'block {b} slot {i}: accepted with estimate {e!r} >= tol {tol!r} (retries in a row {counts[b]}/{case["max_restarts"]})')
         if I['restart_time'] is not None:
             rejected += 1
-        if b + 1 >= len(blocks):
-            continue
+        if b + 1 >= len(blocks) or avoid:
+            continue  # avoid_restarts uses its own step-size update (extra sweeps, contraction-factor estimate): only acceptance is judged
         nxt = blocks[b + 1][0]
         src = blk[I['first_restart']] if I['restart_time'] is not None else blk[-1]
         e = src[est_key]
@@ -405,6 +414,10 @@ def adaptive_cases(draw):
         'rk': draw(st.sampled_from(EMBEDDED_RK)),
     }  # fmt: skip
     case['Tend'] = {'vdp': 1.0, 'lorenz': 0.4, 'logistic': 1.5, 'dahlquist': 1.0}[problem]
+    case['avoid_restarts'] = flavor == 'embedded' and draw(st.integers(0, 3)) == 0
+    case['update_order_shift'] = draw(st.sampled_from([0, 0, -1, 1])) if flavor == 'rk' else 0
+    if case['avoid_restarts']:
+        case['num_procs'] = 1
     if flavor in ('polynomial', 'extrapolation'):
         case['num_procs'] = 1
         case['num_nodes'] = 3
